@@ -20,6 +20,15 @@ def _c01_extra(repo, reg, tier):
 
 
 PROPS: dict[str, dict] = {
+    "C12": {
+        "modules": ["sqlexpr"],
+        "extra": [_c01_extra],
+        "assumptions": ["SQL denotation of the SQLAlchemy builder calls (contracts/sqlexpr.py): integer arithmetic mathematical, two-valued comparisons on NULL-free rows, AND/OR/NOT, BETWEEN inclusive, IN (...), % truncating toward zero; the database evaluates that SQL as stated, no overflow",
+                        "GenericConcreteEngine.get_function(name) is the operator module's function for the portable names",
+                        "integer laws mod-congruence / floor-division / emod-small-negative (spec/laws.py; bounded-checked, Mathlib counterparts named)",
+                        "iteration side: the converted callables are covered by the bounded native stand-in replay/bounded_rowiter.py, not proved"],
+        "explanation": "sql.Engine.convert_column_expression / convert_predicate: every match arm denotes the expression's value under the stated SQL semantics, for all expression trees over the portable operator set and all rows",
+    },
     "C01": {
         "modules": ["iteration"],
         "extra": [_c01_extra],
@@ -165,5 +174,21 @@ PROPS["C09"].update(
                "Freshness of Diagnostics.run's result is a proved contract obligation of C16.",
     technique="frame and type obligations generated per mutating statement / per dataclass field from the current AST, decided by an intraprocedural freshness (ownership) analysis; no SMT needed",
 )
-CLAIMED = {"C03", "C04", "C05", "C06", "C09", "C13", "C14", "C15", "C16", "C19", "C20"}
+PROPS["C12"].update(
+    level_text="sql.Engine.convert_column_expression and convert_predicate are proved arm by arm (10 cells, recursion by contract, comprehensions over operand tuples): the built SQL term's value equals the expression's/predicate's value on every NULL-free integer row, "
+               "relative to the stated denotation of the SQLAlchemy builder calls (BETWEEN inclusive, truncating %, ...); the range-literal arm is proved for all integer start/stop/step including descending ranges and negative starts (after the F12 repair). "
+               "The iteration engine's converted callables are only bounded-checked (replay/bounded_rowiter.py).",
+    level_note=_COMMON_NOTE + "Assumed: the SQL denotation model in contracts/sqlexpr.py and that the database implements it (no overflow); get_function returns operator.<name> for the portable names; three integer lemmas (spec/laws.py). Iteration side bounded only.",
+)
+PROPS["C01"].update(
+    level_text="iteration.Engine.execute is proved arm by arm (13 cells): the returned iterable yields exactly the rows of direct evaluation of the tree (values, multiplicity, order), attached payloads are honoured, the three short-cuts (empty, join identity, payload) never change the result. "
+               "The generator-backed RowIterable classes, the inline Sort arm and the converted callables enter as class contracts / summaries that are ASSUMED and covered by a bounded native stand-in (labelled bounded). Known finding F8 (key-only deduplication) is re-proved with its witness class excluded.",
+    level_note=_COMMON_NOTE + _LAWS + "Not proved: RowIterable class contracts, Sort arm, convert_* closures (bounded stand-in replay/bounded_rowiter.py). Independence of construction-time merging/reordering is C05/C03.",
+)
+PROPS["C10"].update(
+    level_text="MarkerRelation.attach_payload (write-once, frame: only this marker's cell, rejected attach changes nothing) and BaseRelation.attach_payload (always TypeError) are proved; an AST scan proves the only payload write in the library is that statement; "
+               "iteration.Engine.execute is proved to return a cached payload without re-evaluation, never to replace a payload, to touch payload cells of this tree only and to leave an executed materialization with a payload.",
+    level_note=_COMMON_NOTE + "Processor._process_recursive (the other payload writer through attach_payload) is not yet under contract: its 'at most once' clause is the subject of C07.",
+)
+CLAIMED = {"C01", "C03", "C04", "C05", "C06", "C09", "C10", "C12", "C13", "C14", "C15", "C16", "C19", "C20"}
 NOT_CLAIMED: dict[str, str] = {}
